@@ -109,6 +109,13 @@ def post(ctx, results):
     if not failed:
         return results
     texts = ["'\\xZZ'", '1' * 4301, "'\\N{nope}'"]
+    # boundary values of every escape form (largest / out-of-range code
+    # points, surrogates, largest octal), in each quote style
+    for body in ('\\UFFFFFFFF', '\\U80000000', '\\U7FFFFFFF',
+                 '\\U00110000', '\\U0010FFFF', '\\uD800', '\\uFFFF',
+                 '\\xFF', '\\777', '\\N{}', '\\U-0000001',
+                 '\\u+1 2', '\\x_1'):
+        texts += ["'a%sb'" % body, '"a%sb"' % body]
     for o in failed:
         m = re.search(r"witness: '(.*)'$", o.get('detail') or '')
         if m:
